@@ -24,6 +24,17 @@ class Untranslatable(Exception):
     pass
 
 
+LEAN_KEYWORDS = {"end", "from", "at", "fun", "open", "in", "do", "then", "else", "if", "let", "have", "show", "with",
+                 "match", "where", "by", "section", "namespace", "variable", "instance", "structure", "class",
+                 "theorem", "def", "example", "axiom", "import", "export", "local", "prefix", "infix", "notation",
+                 "mutual", "partial", "unsafe", "private", "protected", "deriving", "extends", "for", "universe", "Type", "Prop", "Sort"}
+
+
+def li(name: str) -> str:
+    """Lean identifier for a Python identifier"""
+    return name + "_" if name in LEAN_KEYWORDS else name
+
+
 def dec_to_rat(src: str) -> str:
     f = Fraction(src.replace("_", ""))  # decimal reading of the literal
     if f.denominator == 1:
@@ -129,6 +140,10 @@ def infer(ctx: Ctx, e):
             return "Rat"
         if fn in ("np.sqrt", "math.sqrt", "sqrt"):
             return "Rat"
+        if fn == "math.ceil":
+            return "Int"
+        if fn == "np.arange":
+            return "List Rat"
     return None
 
 
@@ -168,10 +183,10 @@ def expr(ctx: Ctx, e, want=None) -> str:
     if isinstance(e, ast.Name):
         t = ctx.typ(e.id)
         if want == "Val" and t in NUMERIC:
-            return f"(Val.num {cast(ctx, e.id, t, 'Rat')})"
+            return f"(Val.num {cast(ctx, li(e.id), t, 'Rat')})"
         if want in NUMERIC and t in NUMERIC and t != want:
-            return cast(ctx, e.id, t, want)
-        return e.id
+            return cast(ctx, li(e.id), t, want)
+        return li(e.id)
     if isinstance(e, ast.Attribute):
         raise Untranslatable(f"attribute {seg(ctx, e)}")
     if isinstance(e, ast.BinOp):
@@ -339,7 +354,7 @@ def as_val(ctx, e):
 
 def pattern(t):
     if isinstance(t, ast.Name):
-        return t.id
+        return li(t.id)
     if isinstance(t, ast.Tuple):
         return "(" + ", ".join(pattern(x) for x in t.elts) + ")"
     raise Untranslatable("pattern")
@@ -371,6 +386,8 @@ def call(ctx, e, want):
     if fn in ("min", "max") and len(args) == 2:
         t = want if want in NUMERIC else (infer(ctx, args[0]) or infer(ctx, args[1]))
         return f"({fn} {expr(ctx, args[0], t)} {expr(ctx, args[1], t)})"
+    if fn in ("numpy_to_python_type", "general.numpy_to_python_type") and len(args) == 1:
+        return expr(ctx, args[0], want)  # identity on values
     if fn in ("float", "int", "str") and len(args) == 1:
         if fn == "int" and infer(ctx, args[0]) == "Rat":
             raise Untranslatable("int() of a Rat")
@@ -387,6 +404,11 @@ def call(ctx, e, want):
         return f"(Val.isNan {expr(ctx, args[0], 'Val')})"
     if fn in ("np.sqrt", "math.sqrt", "sqrt"):
         return f"(sqrt {expr(ctx, args[0], 'Rat')})"
+    if fn == "math.ceil" and len(args) == 1:
+        inner = f"(Rat.ceil {expr(ctx, args[0], 'Rat')})"
+        return inner if want in (None, "Int") else cast(ctx, inner, "Int", want)
+    if fn == "np.arange" and len(args) == 3:
+        return f"(pyArange {expr(ctx, args[0], 'Rat')} {expr(ctx, args[1], 'Rat')} {expr(ctx, args[2], 'Rat')})"
     if fn in ctx.consts:
         sig = ctx.types.get(fn + "()")  # optional list of argument types
         out = []
@@ -458,7 +480,7 @@ def block(ctx: Ctx, stmts, ret_wrap, ind="  ") -> str:
         if isinstance(tgt, ast.Tuple):
             if not isinstance(s.value, ast.Tuple) or len(s.value.elts) != len(tgt.elts):
                 raise Untranslatable("tuple assignment from non-tuple")
-            names = "(" + ", ".join(t.id for t in tgt.elts) + ")"
+            names = "(" + ", ".join(li(t.id) for t in tgt.elts) + ")"
             vals = []
             for t, x in zip(tgt.elts, s.value.elts):
                 ty = ctx.typ(t.id) or infer(ctx, x)
@@ -472,7 +494,7 @@ def block(ctx: Ctx, stmts, ret_wrap, ind="  ") -> str:
                 # independent right-hand sides: plain sequential lets
                 out = ""
                 for t, v in zip(tgt.elts, vals):
-                    out += f"let {t.id} := {v}\n{ind}"
+                    out += f"let {li(t.id)} := {v}\n{ind}"
                 return out + block(ctx, rest, ret_wrap, ind)
         else:
             if not isinstance(tgt, ast.Name):
@@ -488,7 +510,7 @@ def block(ctx: Ctx, stmts, ret_wrap, ind="  ") -> str:
                 if ty:
                     ctx.types[tgt.id] = ty
             val = as_val(ctx, s.value) if ty == "Val" else expr(ctx, s.value, ty)
-            names = f"{tgt.id} : {ty}" if ty and ty != "List _" else tgt.id
+            names = f"{li(tgt.id)} : {ty}" if ty and ty != "List _" else li(tgt.id)
         return f"let {names} := {val}\n{ind}" + block(ctx, rest, ret_wrap, ind)
     if isinstance(s, ast.AugAssign):
         if type(s.op) not in BINOPS:
@@ -500,7 +522,7 @@ def block(ctx: Ctx, stmts, ret_wrap, ind="  ") -> str:
             raise Untranslatable("division on non-Rat")
         op = BINOPS[type(s.op)]
         return (
-            f"let {s.target.id} := {s.target.id} {op} {expr(ctx, s.value, ty)}\n{ind}"
+            f"let {li(s.target.id)} := {li(s.target.id)} {op} {expr(ctx, s.value, ty)}\n{ind}"
             + block(ctx, rest, ret_wrap, ind)
         )
     if isinstance(s, ast.If):
@@ -550,6 +572,7 @@ def block(ctx: Ctx, stmts, ret_wrap, ind="  ") -> str:
                 for k, v in newt.items():
                     ctx.types.setdefault(k, v)
 
+        vs = [li(v) for v in vs]
         if len(vs) == 1:
             tup = vs[0]
             return (
@@ -634,7 +657,7 @@ def translate_function(
     ctx = Ctx(t, consts, raises, source, default_num)
     wrap = (lambda v: f".ok {v}") if raises else (lambda v: v)
     body = block(ctx, stmts, wrap)
-    sig = " ".join(f"({k} : {v})" for k, v in list(extra_params) + list(params.items()))
+    sig = " ".join(f"({li(k)} : {v})" for k, v in list(extra_params) + list(params.items()))
     rty = f"Except String ({ret})" if raises else ret
     return f"def {lean_name} {sig} : {rty} :=\n  {body}\n"
 
@@ -643,7 +666,7 @@ def translate_expression(source, node, lean_name, params, ret, consts, types=Non
     t = dict(params)
     t.update(types or {})
     ctx = Ctx(t, consts, False, source, default_num)
-    sig = " ".join(f"({k} : {v})" for k, v in params.items())
+    sig = " ".join(f"({li(k)} : {v})" for k, v in params.items())
     return f"def {lean_name} {sig} : {ret} :=\n  {expr(ctx, node, ret)}\n"
 
 
